@@ -32,6 +32,11 @@ type vfC10Case struct {
 	// variant: the last flush runs on the BACKGROUND worker and is parked at this hook point while an
 	// explicit Flush is issued; if that Flush returns nil the process "dies" at once ("" = variant off)
 	BgParkAt string `json:"bg_park_at,omitempty"`
+	// variant: a COMPACTION runs over CompThr of Extra+CompThr segments and the directory is snapshotted at
+	// every hook point of it. Compaction does not merge (open finding KF-1), so nothing is required of the
+	// documents of its INPUT segments; everything else of C10 is: each image opens and searches without
+	// error, the documents of the segments that were NOT inputs are found, ids are not reused.
+	CompactExtra int `json:"compact_extra,omitempty"`
 }
 
 var vfC10ParkPoints = []string{"flush:created:hybrid", "flush:created:vector", "flush:created:metadata", "flush:written", "flush:closed:vector", "flush:closed:hybrid", "flush:registered", "flush:before_drop"}
@@ -55,6 +60,10 @@ func vfC10Gen(rt *rapid.T) vfC10Case {
 	for j := 0; j < rapid.IntRange(1, 5).Draw(rt, "in_flight_docs"); j++ {
 		n++
 		c.InFlight = append(c.InFlight, *vfGenStoreDoc(rt, g, n, explicit))
+	}
+	if rapid.IntRange(0, 4).Draw(rt, "compaction_variant") == 0 {
+		c.CompactExtra = rapid.IntRange(1, 3).Draw(rt, "compact_extra_segments")
+		return c
 	}
 	if rapid.IntRange(0, 3).Draw(rt, "background_flush_variant") == 0 {
 		c.BgParkAt = rapid.SampledFrom(vfC10ParkPoints).Draw(rt, "bg_park_at")
@@ -290,6 +299,9 @@ func vfC10Run(c vfC10Case, ctx *vfCtx) *vfViolation {
 		return vfFail("mkdir: %v", err)
 	}
 	defer os.RemoveAll(root)
+	if c.CompactExtra > 0 {
+		return vfC10CompactionVariant(&c, ctx, root)
+	}
 	dir := filepath.Join(root, "live")
 	conf := c.Conf
 	st, err := vfOpenStore(dir, &conf)
@@ -572,6 +584,123 @@ func vfC10BackgroundVariant(c *vfC10Case, ctx *vfCtx, st *PersistentHybridIndex,
 	ctx.Count("images_checked", 2)
 	ctx.Count("points_enumerated", 1)
 	ctx.Class("background_flush_variant")
+	ctx.NonTrivial()
+	return nil
+}
+
+func vfC10CompactionVariant(c *vfC10Case, ctx *vfCtx, root string) *vfViolation {
+	defer vfInstallHook(nil)
+	dir := filepath.Join(root, "live")
+	conf := c.Conf
+	conf.MemLimit, conf.FlushThr = 1<<30, 1<<40
+	if conf.CompThr < 2 || conf.CompThr > 5 || c.CompactExtra > 4 {
+		return nil
+	}
+	st, err := vfOpenStore(dir, &conf)
+	if err != nil {
+		return vfFail("Open: %v", err)
+	}
+	closed := false
+	defer func() {
+		if !closed {
+			st.Close()
+		}
+	}()
+	everAdded := map[uint32]bool{}
+	everAdded[1<<30+1<<21+900000] = true
+	docsOfSegment := map[uint64]map[uint32]*vfStoreDoc{}
+	nSeg := conf.CompThr + c.CompactExtra
+	for g := 0; g < nSeg; g++ {
+		before := map[uint64]bool{}
+		for _, id := range vfStoreSegmentIDs(st) {
+			before[id] = true
+		}
+		grp := map[uint32]*vfStoreDoc{}
+		for j := 0; j < 2; j++ {
+			n := g*2 + j + 1
+			d := &vfStoreDoc{ID: uint32(1<<30 + n), N: n, Vec: make([]float32, conf.Dim), Word: "fox"}
+			d.Vec[0], d.Vec[len(d.Vec)-1] = float32(n), 1
+			if _, err := vfStoreAdd(st, &conf, d); err != nil {
+				return vfFail("add: %v", err)
+			}
+			everAdded[d.ID] = true
+			grp[d.ID] = d
+		}
+		if err := st.Flush(); err != nil {
+			return vfFail("Flush: %v", err)
+		}
+		for _, id := range vfStoreSegmentIDs(st) {
+			if !before[id] {
+				docsOfSegment[id] = grp
+			}
+		}
+	}
+	if len(docsOfSegment) != nSeg {
+		return vfFail("%d flushes of one memtable each produced %d segments", nSeg, len(docsOfSegment))
+	}
+	pre := vfReadDirImage(dir)
+	inputs := map[uint64]bool{}
+	type snap struct {
+		point string
+		img   vfDirImage
+	}
+	var snaps []snap
+	vfInstallHook(func(name string, args ...any) {
+		if name == "compact:before_delete" && len(args) > 0 {
+			if id, ok := args[0].(uint64); ok {
+				inputs[id] = true
+			}
+		}
+		if strings.HasPrefix(name, "compact:") || strings.HasPrefix(name, "delete:") {
+			snaps = append(snaps, snap{name, vfReadDirImage(dir)})
+		}
+	})
+	cerr := vfStoreCompactNow(st)
+	vfInstallHook(nil)
+	if cerr != nil {
+		return vfFail("compaction of %d of %d segments failed: %v", conf.CompThr, nSeg, cerr)
+	}
+	if len(inputs) == 0 {
+		return vfFail("a compaction over %d segments (threshold %d) deleted no input segment", nSeg, conf.CompThr)
+	}
+	survivors := map[uint32]*vfStoreDoc{}
+	vfProtectedFiles = map[string]bool{}
+	defer func() { vfProtectedFiles = nil }()
+	for id, grp := range docsOfSegment {
+		if inputs[id] {
+			continue
+		}
+		for did, d := range grp {
+			survivors[did] = d
+		}
+		for name := range pre {
+			if m := vfSegFileRe.FindStringSubmatch(name); m != nil {
+				if sid, _ := strconv.ParseUint(m[2], 10, 64); sid == id {
+					vfProtectedFiles[name] = true
+				}
+			}
+		}
+	}
+	if len(survivors) == 0 {
+		return vfFail("a compaction with threshold %d consumed all %d segments", conf.CompThr, nSeg)
+	}
+	// the running store still serves the documents of the segments it did not compact
+	if v := vfCheckDurable(st, &conf, survivors, everAdded, "after a compaction that did not touch their segments"); v != nil {
+		return v
+	}
+	snaps = append(snaps, snap{"compact:returned", vfReadDirImage(dir)})
+	closed = true
+	if err := st.Close(); err != nil {
+		return vfFail("Close: %v", err)
+	}
+	for i, s := range snaps {
+		if v := vfCheckCrashImage(root, i+1, s.img, &conf, survivors, map[uint32]*vfStoreDoc{}, everAdded, "compaction of "+fmt.Sprint(conf.CompThr)+" of "+fmt.Sprint(nSeg)+" segments, as found at "+s.point); v != nil {
+			return v
+		}
+	}
+	ctx.Count("points_enumerated", int64(len(snaps)))
+	ctx.Count("images_checked", int64(len(snaps)))
+	ctx.Class("compaction_variant")
 	ctx.NonTrivial()
 	return nil
 }
